@@ -436,8 +436,21 @@ func run(t *rapid.T, prop string) {
 	if gen.Rare(t, "over1024", 300) {
 		// beyond a thousand rows with several keys of mixed types (strategies
 		// that only switch on for "large" frames)
-		b.MinRows, b.MaxRows, b.MinCols, b.SmallDomain = 1024, 1300, 3, true
+		// (small value domains for large groups; now and then the wide domains,
+		// where sums depend on the order of addition)
+		b.MinRows, b.MaxRows, b.MinCols, b.SmallDomain = 1024, 1300, 3, rapid.IntRange(0, 2).Draw(t, "bigsmall") != 0
 		core.Probe("over-1024-rows")
+	}
+	if rapid.IntRange(0, 5).Draw(t, "sumfloats") == 0 {
+		// float cells whose sum depends on the order in which they are added, in
+		// groups of a few dozen rows and more
+		b.SumFloats = true
+		if b.MinRows < 33 {
+			b.MinRows = 33
+		}
+		if b.MaxRows < 80 {
+			b.MaxRows = 80
+		}
 	}
 	fs := gen.DrawFrame(t, b)
 	scr := gen.DrawLayoutScramble(t, fs)
